@@ -132,6 +132,31 @@ Theorem C18_eval_short_circuit : forall V truth e i t,
 Proof. exact eval_exc. Qed.
 Print Assumptions C18_eval_short_circuit.
 
+(* history: on one (cached) expression every call is judged alone - the i-th result is the evaluation on
+   the i-th environment, whatever was evaluated before *)
+Theorem C18_calls_independent : forall V truth n e i d, (i < n)%nat ->
+  nth i (outcome V truth n (Ok e)) d = eval V truth e i.
+Proof. exact outcome_nth. Qed.
+Print Assumptions C18_calls_independent.
+
+(* faults of the environment (the data object's get() or a value's __str__ raising): the exception is the
+   result of the call iff the term is reached; a decided left operand skips the right one *)
+Theorem C18_env_fault : forall V truth a b i t,
+  (tv_fault (truth a i) = Some t -> eval V truth (Atom a) i = VExc t) /\
+  (eval V truth b i = VB true -> eval V truth (Or b (Atom a)) i = VB true) /\
+  (eval V truth b i = VB false -> eval V truth (And b (Atom a)) i = VB false) /\
+  (eval V truth b i = VB false -> eval V truth (Or b (Atom a)) i = eval V truth (Atom a) i) /\
+  (eval V truth b i = VB true -> eval V truth (And b (Atom a)) i = eval V truth (Atom a) i).
+Proof.
+  intros V truth a b i t. repeat split.
+  - intros H. cbn [eval]. unfold atom_val. now rewrite H.
+  - intros H. cbn [eval]. now rewrite H.
+  - intros H. cbn [eval]. now rewrite H.
+  - intros H. cbn [eval]. now rewrite H.
+  - intros H. cbn [eval]. now rewrite H.
+Qed.
+Print Assumptions C18_env_fault.
+
 (* ---- rejection ---- *)
 (* the parser's only failure is ParseError (-> ValueError): for every input string, provided
    re.compile fails only with re.error / OverflowError and translated glob patterns compile *)
